@@ -11,5 +11,8 @@ echo "$out" | grep -E "^(VIOLATION|  signature)"; echo "spin: exit=$rc"
 out=$(LV_SELFTEST=abort:history:77 $LV C17 --tier quick 2>&1); rc=$?
 echo "$out" | grep -E "^(VIOLATION|  signature)"; echo "abort: exit=$rc"
 [ $rc -eq 1 ] && echo "$out" | grep -q "the process is killed" || { echo "FAIL abort"; exit 1; }
+out=$(LV_SELFTEST=flaky:history:77 $LV C17 --tier quick 2>&1); rc=$?
+echo "$out" | grep -E "^(VIOLATION|INCONCLUSIVE)" | cut -c1-160; echo "flaky (dies only inside the full workload): exit=$rc"
+[ $rc -eq 2 ] && echo "$out" | grep -q "^INCONCLUSIVE" && ! echo "$out" | grep -q "^VIOLATION" || { echo "FAIL flaky"; exit 1; }
 rm -f /verif/replays/C17/*.json
 ./check C17 quick >/dev/null 2>&1; echo "restored: exit=$?"
